@@ -100,7 +100,8 @@ def _history(draw, tier):
         if share_cmp and pool and chance(draw, 2, 3):
             # a comparison OBJECT of an earlier query is used again, in another connective (c = x.a >= 2;
             # q1 = ...or_(c, d)...; q2 = ...and_(c, e)...): its result cache is filled by one and read by the other
-            earlier = [n for s_ in pool for n in A.walk(s_["cond"]) if n[0] in ("cmp", "in")]
+            earlier = [n for s_ in pool for n in A.walk(s_["cond"]) if n[0] in ("cmp", "in")
+                       or (n[0] == "or" and not A.has_kind(n, "not", "sub", "fpred"))]
             if earlier:
                 reused = draw(st.sampled_from(earlier))
                 parts = [reused, leaf(draw, ctx, [draw(st.integers(0, nvars - 1))])]
@@ -288,6 +289,7 @@ def check(case) -> Outcome:
             from ..build import Vars
             V = Vars(V)
             V.cmemo = {}
+            V.share_connectives = True
         for spec in case["pool"]:
             if case.get("share_comparisons"):
                 V.cused = set()
